@@ -250,7 +250,8 @@ theorem appendAll_layout :
     rw [hs', hs1]; simp only [specsCells, List.flatMap_cons, List.length_append]; omega
 
 /-- **Writer correctness**: `serialize` builds an archive with the layout of `v`. -/
-theorem build_layout (v : AssetBinary) (hwf : ∀ s ∈ v.specs, SpecWF s) :
+theorem build_layout (v : AssetBinary) (hwf : ∀ s ∈ v.specs, SpecWF s)
+    (hsmall : 4 * (fileCells v).length < 2 ^ 64) :
     ∃ a, build v = .ok a ∧ Layout v a ∧ Plain a := by
   have h0 : WInv ((BinArchive.new .little).allocateAtEnd 4) 0 [] :=
     ⟨rfl, Nat.zero_le _, rfl, trivial, fun _ _ => rfl, fun x hx => absurd rfl hx, rfl⟩
@@ -269,12 +270,13 @@ theorem build_layout (v : AssetBinary) (hwf : ∀ s ∈ v.specs, SpecWF s) :
   obtain ⟨a2, hw2, hi2, hs2⟩ := appendAll_layout v.specs hwf a1 _ hi1'
   have hi3 := hi2.allocateAtEnd 4
   have hs3 : (a2.allocateAtEnd 4).size = a2.size + 4 := size_allocateAtEnd a2 4
-  refine ⟨a2.allocateAtEnd 4, ?_, ⟨hi3.little, ?_, ?_⟩, hi3.plain⟩
-  · simp only [build, hw1', hw2]
-  · have := hi2.pos_eq
+  have hsz : (a2.allocateAtEnd 4).size = 4 * (fileCells v).length := by
+    have := hi2.pos_eq
     rw [hs3, this]
     simp only [fileCells, List.length_append, List.length_cons, List.length_nil]
     omega
+  refine ⟨a2.allocateAtEnd 4, ?_, ⟨hi3.little, hsz, by rw [hsz]; exact hsmall, ?_⟩, hi3.plain⟩
+  · simp only [build, hw1', hw2]
   · have hc : fileCells v = ([] ++ [Cell.raw (leBytes 4 v.flags)] ++ specsCells v.specs) ++ [Cell.raw zero4] := by
       simp [fileCells]
     rw [hc, cellsAt_append]
